@@ -286,7 +286,19 @@ class MultPepSuite(Suite):
         if len(terms) == 0 or np.isnan(exp_score):
             exp_score = -100.0
         ok = (float(acc) == float(total)) and n == len(terms) and float(exp_score) == float(score)
-        return {"terms": [gens.fr(t) for t in terms], "float_fold_matches_impl": bool(ok)}
+        return {"terms": [gens.fr(t) for t in terms], "float_fold_matches_impl": bool(ok),
+                "score": float(score), "expected_score": float(exp_score), "n_distinct": len(terms), "n_counted": int(n)}
+
+    has_py_property = True
+
+    def py_property(self, case, out):
+        """C05 on the implementation's float: sum of -log10 PEP over the DISTINCT peptides (lowest PEP each) plus the same constant
+        log10(div) per distinct peptide"""
+        if out["n_counted"] != out["n_distinct"]:
+            return "multPEP-counts-a-peptide-more-than-once"
+        if abs(out["score"] - out["expected_score"]) > 1e-9 * max(1.0, abs(out["expected_score"])):
+            return "multPEP-score-is-not-the-sum-over-distinct-peptides-plus-a-constant-per-peptide"
+        return None
 
     def render_in(self, case):
         return clist(render_pinfo(i) for i in case["infos"])
